@@ -308,7 +308,9 @@ def collect(ctx):
                     traces.append(trace)
                 break
             if any(r.get("kind") == "violation" and r.get("class") == "timer-goroutine-wedged" for r in rs):
+                # the child showed (goroutine stack) that the timer goroutine is stuck for good and stopped itself
                 done += (last or {}).get("i", 0)
+                died += 1
                 break
             if rc == 3 and any(r.get("kind") == "violation" and r.get("predicate") == "NoLostStart" for r in rs):
                 done += (last or {}).get("i", 0)
